@@ -183,9 +183,9 @@ theorem decodeFragment_roundtrip (c l off res m ident : Nat) (extra : Bytes) (ho
     (hi : ident < 4294967296) :
     decodeFragment ⟨c, l, OutCursor.beBytes 2 (off * 8 + res * 2 + m) ++ (OutCursor.beBytes 4 ident ++ extra)⟩ =
       .ok (off, m == 1, ident) := by
-  have r1 := read_prefix' (OutCursor.beBytes 2 (off * 8 + res * 2 + m)) (OutCursor.beBytes 4 ident ++ extra)
+  have r1 := read_prefix_n (OutCursor.beBytes 2 (off * 8 + res * 2 + m)) (OutCursor.beBytes 4 ident ++ extra)
     (2 + (4 + extra.length)) 2 (by simp) (by omega)
-  have r2 := read_prefix' (OutCursor.beBytes 4 ident) extra (2 + (4 + extra.length) - 2) 4 (by simp) (by omega)
+  have r2 := read_prefix_n (OutCursor.beBytes 4 ident) extra (2 + (4 + extra.length) - 2) 4 (by simp) (by omega)
   have e1 : Cursor.beNat (OutCursor.beBytes 2 (off * 8 + res * 2 + m)) = off * 8 + res * 2 + m := by
     rw [beNat_beBytes]; exact Nat.mod_eq_of_lt (by omega)
   have e2 : Cursor.beNat (OutCursor.beBytes 4 ident) = ident := by
